@@ -122,11 +122,29 @@ fn rand_metric(r: &mut Rng, len: usize) -> String {
 }
 
 fn decode_dest_inet(dest: &[u8]) -> Option<SocketAddr> {
-    if dest.len() >= 8 && u16::from_ne_bytes([dest[0], dest[1]]) == 2 {
+    let fam = if dest.len() >= 2 { u16::from_ne_bytes([dest[0], dest[1]]) } else { 0 };
+    if dest.len() >= 8 && fam == 2 {
         let port = u16::from_be_bytes([dest[2], dest[3]]);
         Some(SocketAddr::from(([dest[4], dest[5], dest[6], dest[7]], port)))
+    } else if dest.len() >= 24 && fam == 10 {
+        // sockaddr_in6: family, port, flowinfo, 16 address bytes, scope id
+        let port = u16::from_be_bytes([dest[2], dest[3]]);
+        let mut a = [0u8; 16];
+        a.copy_from_slice(&dest[8..24]);
+        Some(SocketAddr::from((std::net::Ipv6Addr::from(a), port)))
     } else {
         None
+    }
+}
+
+/// "127.0.0.1:0", or "[::1]:0" for a third of the cases when this machine has an IPv6 loopback.
+fn loopback(r: &mut Rng) -> &'static str {
+    static V6: std::sync::OnceLock<bool> = std::sync::OnceLock::new();
+    let v6 = *V6.get_or_init(|| UdpSocket::bind("[::1]:0").is_ok());
+    if v6 && r.chance(1, 3) {
+        "[::1]:0"
+    } else {
+        "127.0.0.1:0"
     }
 }
 
@@ -183,8 +201,12 @@ fn case_unbuffered(cx: &mut Cx, cs: u64) {
     let n = r.range(5, 40) as usize;
     cx.rep.eval();
     // receivers: the addressed one and a decoy that must stay empty
-    let udp_recv = UdpSocket::bind("127.0.0.1:0").unwrap();
-    let udp_decoy = UdpSocket::bind("127.0.0.1:0").unwrap();
+    let lo = loopback(&mut r);
+    if lo.starts_with('[') {
+        cx.rep.obs("ipv6_loopback_cases", 1);
+    }
+    let udp_recv = UdpSocket::bind(lo).unwrap();
+    let udp_decoy = UdpSocket::bind(lo).unwrap();
     udp_recv.set_read_timeout(Some(Duration::from_millis(500))).unwrap();
     udp_decoy.set_nonblocking(true).unwrap();
     let unix_path = dir.join("target.sock");
@@ -202,7 +224,7 @@ fn case_unbuffered(cx: &mut Cx, cs: u64) {
     let probe;
     let label;
     if udp {
-        let sock = UdpSocket::bind("127.0.0.1:0").unwrap();
+        let sock = UdpSocket::bind(lo).unwrap();
         sock.set_nonblocking(nonblocking).unwrap();
         fd = sock.as_raw_fd();
         probe = ModeProbe::new(fd);
@@ -350,7 +372,11 @@ fn case_buffered(cx: &mut Cx, cs: u64) {
     let cap = if default_cap { 512 } else if r.chance(1, 6) { *r.pick(&[66000usize, 70000, 100000]) } else { *r.pick(&[0usize, 1, 8, 40, 100, 512, 1432, 9000]) };
     let dir = fresh_dir();
     cx.rep.eval();
-    let udp_recv = UdpSocket::bind("127.0.0.1:0").unwrap();
+    let lo = loopback(&mut r);
+    if udp && lo.starts_with('[') {
+        cx.rep.obs("ipv6_loopback_cases", 1);
+    }
+    let udp_recv = UdpSocket::bind(lo).unwrap();
     udp_recv.set_read_timeout(Some(Duration::from_millis(500))).unwrap();
     let unix_path = dir.join("target.sock");
     let unix_recv = UnixDatagram::bind(&unix_path).unwrap();
@@ -408,7 +434,7 @@ fn case_buffered(cx: &mut Cx, cs: u64) {
     let probe;
     let label;
     if udp {
-        let sock = UdpSocket::bind("127.0.0.1:0").unwrap();
+        let sock = UdpSocket::bind(lo).unwrap();
         fd = sock.as_raw_fd();
         probe = ModeProbe::new(fd);
         sink = Box::new(if default_cap { BufferedUdpMetricSink::from(udp_recv.local_addr().unwrap(), sock).unwrap() } else { BufferedUdpMetricSink::with_capacity(udp_recv.local_addr().unwrap(), sock, cap).unwrap() });
@@ -434,6 +460,7 @@ fn case_buffered(cx: &mut Cx, cs: u64) {
     let mut received: Vec<Vec<u8>> = Vec::new();
     let mut buf = vec![0u8; 70000];
     let mut wrong_error: Option<String> = None;
+    let mut wrong_dest: Option<String> = None;
     let p_script = if faults && !kernel_eagain { *r.pick(&[50u64, 200, 500]) } else { 0 };
     for k in 0..nops {
         // receiver behaviour: drain always, except in the kernel-EAGAIN scenario where the queue is left to fill up
@@ -519,6 +546,13 @@ fn case_buffered(cx: &mut Cx, cs: u64) {
             .iter()
             .map(|x| Attempt { bytes: Some(x.payload.clone()), out: if x.result >= 0 { AOut::Ok } else if x.errno == EINTR { AOut::Interrupted(x.seq) } else { AOut::Failed(x.seq) } })
             .collect();
+        // every datagram of the sink goes to the address / path it was constructed with
+        for x in &recs {
+            let ok = if udp { decode_dest_inet(&x.dest) == udp_recv.local_addr().ok() } else { decode_dest_unix(&x.dest).as_deref() == Some(unix_path.as_path()) };
+            if !ok && wrong_dest.is_none() {
+                wrong_dest = Some(format!("call #{}: datagram addressed to {:?}/{:?}", k, decode_dest_inet(&x.dest), decode_dest_unix(&x.dest)));
+            }
+        }
         // the error handed back must be the socket's own error
         if let (Res::Err(_), Some(last)) = (&res, recs.iter().rev().find(|x| x.result < 0)) {
             if ioerr != Some(last.errno) {
@@ -609,6 +643,9 @@ fn case_buffered(cx: &mut Cx, cs: u64) {
                 break;
             }
         }
+    }
+    if let Some(w) = wrong_dest {
+        cx.violation("C13", "destination", "wrong-destination", format!("[{}] {}", label, w), jobj! {"history" => hist(&steps)}, cs);
     }
     if let (false, Some(w)) = (violated, wrong_error) {
         cx.violation(if cx.prop == "C13" { "C13" } else { "C07" }, "F3", "wrong-error", format!("[{}] {}", label, w), jobj! {"history" => hist(&steps)}, cs);
